@@ -33,6 +33,7 @@ import (
 	"github.com/XiaoMi/Gaea/models"
 	"github.com/XiaoMi/Gaea/mysql"
 	"github.com/XiaoMi/Gaea/parser/ast"
+	"github.com/XiaoMi/Gaea/proxy/router"
 	"github.com/XiaoMi/Gaea/util"
 	kit "github.com/XiaoMi/Gaea/verifkit"
 	"github.com/XiaoMi/Gaea/verifkit/mycli"
@@ -56,6 +57,9 @@ func c07Namespace() *models.Namespace {
 			{DB: "db_ks", Table: "tbl_ks_hash", Type: "hash", Key: "id", Locations: []int{1, 3}, Slices: both},
 			{DB: "db_ks", Table: "tbl_ks_range", Type: "range", Key: "id", Locations: []int{2, 2}, Slices: both, TableRowLimit: 100},
 			{DB: "db_ks", Table: "tbl_ks_year", Type: "date_year", Key: "create_time", Slices: both, DateRange: []string{"2014-2017", "2018-2019"}},
+			{DB: "db_ks", Table: "tbl_ks_month", Type: "date_month", Key: "create_time", Slices: both, DateRange: []string{"201405-201407", "201409-201411"}},
+			{DB: "db_ks", Table: "tbl_ks_day", Type: "date_day", Key: "create_time", Slices: both, DateRange: []string{"20140901-20140904", "20140906-20140908"}},
+			{DB: "db_ks", Table: "tbl_ks_range_child", Type: "linked", Key: "id", ParentTable: "tbl_ks_range"},
 			{DB: "db_ks", Table: "tbl_ks_global", Type: "global", Locations: []int{2, 2}, Slices: both},
 			{DB: "db_mycat", Table: "tbl_mycat", Type: "mycat_mod", Key: "id", Locations: []int{2, 2}, Slices: both, Databases: []string{"db_mycat_[0-3]"}},
 			{DB: "db_mycat", Table: "tbl_mycat_child", Type: "linked", Key: "id", ParentTable: "tbl_mycat"},
@@ -172,6 +176,106 @@ func c07Corpus(seed uint64) []c07Stmt {
 		{"unshard-qualified-select", all, func(r *kit.Rand) string { return sp("select * from db_alias.t_plain where id = %d", id()) }, true},
 		{"unshard-qualified-ks", all, func(r *kit.Rand) string { return sp("select * from db_ks.t_plain where id = %d", id()) }, true},
 		{"unshard-notable", all, func(r *kit.Rand) string { return sp("select %d + 1", id()) }, true},
+		// every pruning form on range / date / mod / mycat rules and their linked tables. The
+		// pruned index lists are derived from the rule's own sub-table list, which all sessions share.
+		{"prune-range-notbetween-far", ks, func(r *kit.Rand) string {
+			a := r.Range(0, 99)
+			return sp("select * from tbl_ks_range where id not between %d and %d", a, a+r.Range(200, 300))
+		}, true},
+		{"prune-range-notbetween-near", ks, func(r *kit.Rand) string {
+			a := id()
+			return sp("select * from tbl_ks_range where id not between %d and %d", a, a+r.Range(0, 120))
+		}, true},
+		{"prune-range-notbetween-reversed", ks, func(r *kit.Rand) string {
+			return sp("select * from tbl_ks_range where id not between %d and %d", r.Range(200, 399), r.Range(0, 150))
+		}, true},
+		{"prune-range-notbetween-dml", ks, func(r *kit.Rand) string {
+			a := r.Range(0, 99)
+			return sp(r.Pick([]string{"update tbl_ks_range set a = 1 where id not between %d and %d", "delete from tbl_ks_range where id not between %d and %d"}), a, a+r.Range(200, 300))
+		}, false},
+		{"prune-range-child-notbetween", ks, func(r *kit.Rand) string {
+			a := r.Range(0, 99)
+			return sp("select * from tbl_ks_range_child where id not between %d and %d", a, a+r.Range(200, 300))
+		}, true},
+		{"prune-range-child-eq", ks, func(r *kit.Rand) string { return sp("select * from tbl_ks_range_child where id = %d", id()) }, true},
+		{"prune-range-in", ks, func(r *kit.Rand) string { return sp("select * from tbl_ks_range where id in (%d, %d)", id(), id()) }, true},
+		{"prune-range-notin", ks, func(r *kit.Rand) string { return sp("select * from tbl_ks_range where id not in (%d, %d)", id(), id()) }, true},
+		{"prune-range-cmp", ks, func(r *kit.Rand) string {
+			return sp("select * from tbl_ks_range where id %s %d", r.Pick([]string{"<", "<=", ">", ">=", "!=", "="}), id())
+		}, true},
+		{"prune-range-and", ks, func(r *kit.Rand) string {
+			a := id()
+			return sp("select * from tbl_ks_range where id >= %d and id < %d", a, a+r.Range(1, 250))
+		}, true},
+		{"prune-range-or", ks, func(r *kit.Rand) string { return sp("select * from tbl_ks_range where id < %d or id > %d", r.Range(0, 150), r.Range(250, 399)) }, true},
+		{"prune-range-scan", ks, func(r *kit.Rand) string { return sp("select * from tbl_ks_range where a = %d", id()) }, true},
+		{"prune-range-join-child", ks, func(r *kit.Rand) string {
+			return sp("select p.id from tbl_ks_range p join tbl_ks_range_child c on p.id = c.id where p.id between %d and %d", r.Range(0, 150), r.Range(151, 399))
+		}, true},
+		{"prune-year-notbetween-far", ks, func(r *kit.Rand) string {
+			return sp("select * from tbl_ks_year where create_time not between '%d-02-01 00:00:00' and '%d-02-01 00:00:00'", r.Range(2014, 2015), r.Range(2018, 2019))
+		}, true},
+		{"prune-year-between", ks, func(r *kit.Rand) string {
+			return sp("select * from tbl_ks_year where create_time between '%d-02-01 00:00:00' and '%d-02-01 00:00:00'", r.Range(2014, 2016), r.Range(2016, 2019))
+		}, true},
+		{"prune-year-cmp", ks, func(r *kit.Rand) string {
+			return sp("select * from tbl_ks_year where create_time %s '%d-06-01 00:00:00'", r.Pick([]string{"<", "<=", ">", ">="}), r.Range(2014, 2019))
+		}, true},
+		{"prune-year-in", ks, func(r *kit.Rand) string {
+			return sp("select * from tbl_ks_year where create_time in ('%d-01-02 00:00:00', '%d-01-02 00:00:00')", r.Range(2014, 2019), r.Range(2014, 2019))
+		}, true},
+		{"prune-year-scan", ks, func(r *kit.Rand) string { return sp("select * from tbl_ks_year where a = %d", id()) }, true},
+		{"prune-month-notbetween-far", ks, func(r *kit.Rand) string {
+			return sp("select * from tbl_ks_month where create_time not between '2014-0%d-03 00:00:00' and '2014-%d-03 00:00:00'", r.Range(5, 6), r.Range(10, 11))
+		}, true},
+		{"prune-month-between", ks, func(r *kit.Rand) string {
+			return sp("select * from tbl_ks_month where create_time between '2014-0%d-03 00:00:00' and '2014-%d-03 00:00:00'", r.Range(5, 7), r.Range(10, 11))
+		}, true},
+		{"prune-month-eq", ks, func(r *kit.Rand) string {
+			return sp("select * from tbl_ks_month where create_time = '2014-%02d-03 00:00:00'", r.PickInt([]int{5, 6, 7, 9, 10, 11}))
+		}, true},
+		{"prune-month-scan", ks, func(r *kit.Rand) string { return sp("select * from tbl_ks_month where a = %d", id()) }, true},
+		{"prune-day-notbetween-far", ks, func(r *kit.Rand) string {
+			return sp("select * from tbl_ks_day where create_time not between '2014-09-0%d 01:00:00' and '2014-09-0%d 01:00:00'", r.Range(1, 2), r.Range(6, 8))
+		}, true},
+		{"prune-day-between", ks, func(r *kit.Rand) string {
+			return sp("select * from tbl_ks_day where create_time between '2014-09-0%d 01:00:00' and '2014-09-0%d 01:00:00'", r.Range(1, 4), r.Range(6, 8))
+		}, true},
+		{"prune-day-scan", ks, func(r *kit.Rand) string { return sp("select * from tbl_ks_day where a = %d", id()) }, true},
+		{"prune-mod-notin", ks, func(r *kit.Rand) string { return sp("select * from tbl_ks where id not in (%d, %d)", id(), id()) }, true},
+		{"prune-mod-between", ks, func(r *kit.Rand) string {
+			a := id()
+			return sp("select * from tbl_ks where id between %d and %d", a, a+r.Range(0, 5))
+		}, true},
+		{"prune-mod-notbetween", ks, func(r *kit.Rand) string { return sp("select * from tbl_ks where id not between %d and %d", id(), id()) }, true},
+		{"prune-mod-or", ks, func(r *kit.Rand) string { return sp("select * from tbl_ks where id = %d or id = %d", id(), id()) }, true},
+		{"prune-linked-in", ks, func(r *kit.Rand) string { return sp("select * from tbl_ks_child where id in (%d, %d)", id(), id()) }, true},
+		{"prune-linked-update", ks, func(r *kit.Rand) string { return sp("update tbl_ks_child set a = %d where id = %d", id(), id()) }, false},
+		{"prune-linked-delete", ks, func(r *kit.Rand) string { return sp("delete from tbl_ks_child where id in (%d, %d)", id(), id()) }, false},
+		{"prune-linked-insert", ks, func(r *kit.Rand) string { return sp("insert into tbl_ks_child (id, a) values (%d, %d)", id(), id()) }, false},
+		{"prune-linked-scan", ks, func(r *kit.Rand) string { return sp("select * from tbl_ks_child where a = %d", id()) }, true},
+		{"prune-mycat-notin", my, func(r *kit.Rand) string { return sp("select * from tbl_mycat where id not in (%d, %d)", id(), id()) }, true},
+		{"prune-mycat-between", my, func(r *kit.Rand) string {
+			a := id()
+			return sp("select * from tbl_mycat where id between %d and %d", a, a+r.Range(0, 5))
+		}, true},
+		{"prune-mycat-scan", my, func(r *kit.Rand) string { return sp("select * from tbl_mycat where a = %d", id()) }, true},
+		{"prune-mycat-child-scan", my, func(r *kit.Rand) string { return sp("select * from tbl_mycat_child where a = %d", id()) }, true},
+		{"prune-mycat-child-in", my, func(r *kit.Rand) string { return sp("select * from tbl_mycat_child where id in (%d, %d, %d)", id(), id(), id()) }, true},
+		{"prune-mycat-child-update", my, func(r *kit.Rand) string { return sp("update tbl_mycat_child set a = 1 where id = %d", id()) }, false},
+		{"prune-mycat-long-scan", my, func(r *kit.Rand) string { return sp("select * from tbl_mycat_long where a = %d", id()) }, true},
+		{"prune-mycat-long-in", my, func(r *kit.Rand) string { return sp("select * from tbl_mycat_long where id in (%d, %d)", r.Range(0, 1023), r.Range(0, 1023)) }, true},
+		{"prune-mycat-samename-scan", my, func(r *kit.Rand) string { return sp("select * from tbl_ks_hash where a = %d", id()) }, true},
+		{"hint-mycat-db-and-key", my, func(r *kit.Rand) string {
+			return sp("select * from tbl_mycat where database() = 'db_mycat_%d' and id = %d", r.Range(0, 3), id())
+		}, true},
+		{"hint-mycat-db-in", my, func(r *kit.Rand) string {
+			return sp("select * from tbl_mycat where database() in ('db_mycat_%d', 'db_mycat_%d')", r.Range(0, 3), r.Range(0, 3))
+		}, true},
+		{"hint-mycat-db-notin", my, func(r *kit.Rand) string {
+			return sp("select * from tbl_mycat where database() not in ('db_mycat_%d')", r.Range(0, 3))
+		}, true},
+		{"hint-mycat-db-unknown", my, func(r *kit.Rand) string { return "select * from tbl_mycat where database() = 'db_mycat_9'" }, false},
 		// identical text in every session db (fixed literals): a plan leaking between sessions of
 		// different dbs shows up as the other db's plan
 		{"sametext-unshard-select", all, func(r *kit.Rand) string { return "select * from t_plain where id = 7" }, true},
@@ -197,8 +301,14 @@ func c07Corpus(seed uint64) []c07Stmt {
 			}
 		}
 	}
+	for _, tb := range []string{"tbl_mycat", "tbl_mycat_child", "tbl_mycat_long", "tbl_ks_hash"} {
+		for d := 0; d < 4; d++ {
+			add(c07Stmt{Kind: "query", Class: "hint-mycat-db-eq", DB: "db_mycat", Text: sp("select * from %s where database() = 'db_mycat_%d'", tb, d), E2E: true})
+			add(c07Stmt{Kind: "query", Class: "hint-mycat-db-eq-scan", DB: "db_mycat", Text: sp("select * from %s where database() = 'db_mycat_%d' and a = 1", tb, d), E2E: true})
+		}
+	}
 	for _, db := range all {
-		for _, tb := range []string{"tbl_ks", "tbl_ks_hash", "tbl_ks_global", "tbl_mycat", "t_plain", "db_ks.tbl_ks", "db_mycat.tbl_mycat", "db_ks.t_plain", "db_mycat.tbl_ks_hash"} {
+		for _, tb := range []string{"tbl_ks", "tbl_ks_hash", "tbl_ks_range", "tbl_ks_range_child", "tbl_ks_year", "tbl_mycat_child", "tbl_ks_global", "tbl_mycat", "t_plain", "db_ks.tbl_ks", "db_mycat.tbl_mycat", "db_ks.t_plain", "db_mycat.tbl_ks_hash"} {
 			cls := "fieldlist-default"
 			if strings.HasPrefix(tb, "db_") || strings.HasPrefix(tb, "tbl_") {
 				cls = "fieldlist-" + strings.Replace(tb, ".", "-", -1)
@@ -344,6 +454,94 @@ func c07FieldListPlan(evs []rigEvent, arg string) string {
 	return "FIELDLIST event not found"
 }
 
+// ---------------------------------------------------------------- fresh namespace, router snapshot
+
+// c07FreshPlanner builds a brand-new Namespace (hence Router and rules) from the same config
+// and a planner bound to it, so that nothing planned before can have touched its state.
+func c07FreshPlanner(r *rig, id int) (*c07Planner, *Namespace, error) {
+	ns, err := NewNamespace(c07Namespace(), DefaultDatacenter)
+	if err != nil {
+		return nil, nil, err
+	}
+	r.B.rigInstallFakes(ns, 1000+id)
+	p := c07NewPlanner(r, id)
+	p.se.contextNamespace = ns
+	return p, ns, nil
+}
+
+// c07RouterSnapshot renders everything a rule exposes about its (shared) routing tables.
+func c07RouterSnapshot(ns *Namespace) map[string]string {
+	rt := ns.GetRouter()
+	out := map[string]string{}
+	one := func(name string, ru router.Rule) {
+		idx := ru.GetSubTableIndexes()
+		var sb strings.Builder
+		fmt.Fprintf(&sb, "type=%s db=%s table=%s key=%s linked=%v slices=%v indexes=%v", ru.GetType(), ru.GetDB(), ru.GetTable(), ru.GetShardingColumn(), ru.IsLinkedRule(), ru.GetSlices(), idx)
+		// table -> slice and table -> physical db for every index between first and last (+1 on both sides)
+		if len(idx) > 0 {
+			lo, hi := idx[0], idx[0]
+			for _, i := range idx {
+				if i < lo {
+					lo = i
+				}
+				if i > hi {
+					hi = i
+				}
+			}
+			if hi-lo > 4096 { // date rules index by yyyymmdd: only the listed indexes
+				for _, i := range idx {
+					fmt.Fprintf(&sb, " %d->%d", i, ru.GetSliceIndexFromTableIndex(i))
+				}
+			} else {
+				for i := lo - 1; i <= hi+1; i++ {
+					db := ""
+					if i >= lo && i <= hi && !(router.IsMycatShardingRule(ru.GetType()) || ru.GetType() == router.GlobalTableRuleType) {
+						db, _ = ru.GetDatabaseNameByTableIndex(i)
+					}
+					fmt.Fprintf(&sb, " %d->%d/%s", i, ru.GetSliceIndexFromTableIndex(i), db)
+				}
+			}
+		}
+		if mr, ok := ru.(router.MycatRule); ok {
+			dbs := mr.GetDatabases()
+			fmt.Fprintf(&sb, " mycatdbs=%v", dbs)
+			for _, d := range dbs {
+				i, ok := mr.GetTableIndexByDatabaseName(d)
+				fmt.Fprintf(&sb, " %s=>%d/%v", d, i, ok)
+			}
+		}
+		out[name] = sb.String()
+	}
+	n := 0
+	for db, tbls := range rt.GetAllRules() {
+		for tb, ru := range tbls {
+			one(db+"."+tb, ru)
+			n++
+		}
+	}
+	out["#rules"] = fmt.Sprint(n)
+	d := rt.GetDefaultRule()
+	out["#default"] = fmt.Sprintf("type=%s db=%q slices=%v indexes=%v", d.GetType(), d.GetDB(), d.GetSlices(), d.GetSubTableIndexes())
+	return out
+}
+
+// c07SnapshotDiff lists the rules whose rendering differs (sorted).
+func c07SnapshotDiff(want, got map[string]string) []string {
+	var bad []string
+	for k, w := range want {
+		if got[k] != w {
+			bad = append(bad, fmt.Sprintf("%s: was {%s} now {%s}", k, w, got[k]))
+		}
+	}
+	for k := range got {
+		if _, ok := want[k]; !ok {
+			bad = append(bad, fmt.Sprintf("%s: new entry {%s}", k, got[k]))
+		}
+	}
+	sort.Strings(bad)
+	return bad
+}
+
 // ---------------------------------------------------------------- the monitor
 
 type c07Case struct {
@@ -383,20 +581,62 @@ func TestVerif_C07(t *testing.T) {
 	}
 
 	t0 := time.Now()
-	// ---- baseline: every statement alone
-	base := map[string]map[string]bool{}
-	seqP := c07NewPlanner(r, 0)
-	nondet := 0
-	for _, st := range corpus {
-		set := map[string]bool{}
-		for i := 0; i < 3; i++ {
-			set[seqP.plan(st)] = true
+	// ---- the structural snapshot: the shared router right after construction. A fresh namespace
+	// built from the same config must render identically (else the snapshot itself is unstable).
+	sharedNS := r.m.GetNamespace("c07ns")
+	snap0 := c07RouterSnapshot(sharedNS)
+	rec.Set("router_rules_in_snapshot", snap0["#rules"])
+	if _, fns, err := c07FreshPlanner(r, 0); err != nil {
+		rec.Inconclusive("cannot build a fresh namespace: " + err.Error())
+		return
+	} else {
+		if d := c07SnapshotDiff(snap0, c07RouterSnapshot(fns)); len(d) > 0 {
+			rec.Inconclusive("two namespaces built from the same config render differently: " + strings.Join(d, "; "))
+			return
 		}
-		if len(set) > 1 || strings.HasPrefix(st.Class, "global-") {
-			// a statement with a random choice: collect until no new variant for 64 draws
+		fns.Close(false)
+	}
+	invariant := func(point string) {
+		rec.Count("invariant_checks", 1)
+		if d := c07SnapshotDiff(snap0, c07RouterSnapshot(sharedNS)); len(d) > 0 {
+			name := d[0]
+			if i := strings.Index(name, ":"); i > 0 {
+				name = name[:i]
+			}
+			rec.Violation("router-state-changed:shared:"+name, fmt.Sprintf("the routing tables shared by all sessions differ from their state after construction (%s): %s", point, strings.Join(d, "; ")),
+				map[string]interface{}{"point": point, "diff": d})
+		}
+	}
+
+	// ---- reference: every statement ALONE on a FRESH namespace/router built from the same config
+	base := map[string]map[string]bool{}
+	nondet := 0
+	for si, st := range corpus {
+		fp, fns, err := c07FreshPlanner(r, si+1)
+		if err != nil {
+			rec.Inconclusive("cannot build a fresh namespace: " + err.Error())
+			return
+		}
+		set := map[string]bool{}
+		first := fp.plan(st)
+		set[first] = true
+		// (c) on the fresh router: did planning this one statement alter the routing tables?
+		if d := c07SnapshotDiff(snap0, c07RouterSnapshot(fns)); len(d) > 0 {
+			c := c07Case{Phase: "alone-on-fresh-router", Stmt: st, Got: first, Baseline: d}
+			rec.Sample(c)
+			rec.Violation("router-state-changed:"+st.Class, fmt.Sprintf("planning %q (db %s) alone on a fresh router changed routing tables that all sessions share: %s", st.Text, st.DB, strings.Join(d, "; ")), c)
+			// the variants below must not be collected on the altered router
+			fns.Close(false)
+			if fp, fns, err = c07FreshPlanner(r, si+1); err != nil {
+				rec.Inconclusive("cannot build a fresh namespace: " + err.Error())
+				return
+			}
+		}
+		if strings.HasPrefix(st.Class, "global-") {
+			// a statement with a random choice (one plan per copy): collect until no new variant for 64 draws
 			quiet := 0
 			for n := 0; n < 600 && quiet < 64; n++ {
-				g := seqP.plan(st)
+				g := fp.plan(st)
 				if set[g] {
 					quiet++
 				} else {
@@ -408,7 +648,13 @@ func TestVerif_C07(t *testing.T) {
 				nondet++
 				rec.Count("baseline.random_choice."+st.Class, 1)
 			}
+		} else if again := fp.plan(st); !set[again] {
+			// not a random-choice class: the second plan on the same private router must be the same
+			c := c07Case{Phase: "replan-on-private-router", Stmt: st, Got: again, Baseline: []string{first}}
+			rec.Sample(c)
+			rec.Violation("plan-differs:replan-alone:"+st.Class, fmt.Sprintf("%q (db %s) planned twice by one session on its own router gave %q then %q", st.Text, st.DB, first, again), c)
 		}
+		fns.Close(false)
 		for g := range set {
 			if strings.HasPrefix(g, "PANIC") || strings.Contains(g, "event not found") {
 				rec.Inconclusive(fmt.Sprintf("baseline of %q (db %s) could not be observed: %s", st.Text, st.DB, g))
@@ -428,6 +674,7 @@ func TestVerif_C07(t *testing.T) {
 	t0 = time.Now()
 	var inflight, maxInflight int64
 	var distinctPlans sync.Map
+	seqP := c07NewPlanner(r, 0)
 	check := func(phase string, st c07Stmt, got string, g, round int) {
 		rec.Eval(1)
 		set := base[st.key()]
@@ -446,6 +693,13 @@ func TestVerif_C07(t *testing.T) {
 		rec.Sample(c)
 		rec.Violation("plan-differs:"+phase+":"+st.Class, fmt.Sprintf("%s planned concurrently in db %q gave %q, alone %q", st.Text, st.DB, got, bl), c)
 	}
+
+	// ---- phase 0: the whole corpus sequentially on the shared router (one session after the
+	// other's statements: a statement that leaves something behind changes a later plan)
+	for _, st := range corpus {
+		check("sequential", st, seqP.plan(st), 0, -1)
+	}
+	invariant("after the first sequential pass over the corpus")
 
 	// ---- phase 1: direct planning, G goroutines x N statements, several rounds
 	G := 32
@@ -484,6 +738,7 @@ func TestVerif_C07(t *testing.T) {
 		}
 		close(start)
 		wg.Wait()
+		invariant(fmt.Sprintf("after concurrent round %d", round))
 	}
 	runtime.GOMAXPROCS(old)
 	rec.Set("direct_max_plans_in_flight", atomic.LoadInt64(&maxInflight))
@@ -497,6 +752,13 @@ func TestVerif_C07(t *testing.T) {
 	// ---- phase 2: end to end through real sessions
 	c07EndToEnd(rec, r, corpus)
 	rec.Set("wall_e2e_s", time.Since(t0).Seconds())
+	invariant("after the end-to-end phase")
+
+	// ---- final: re-plan the whole corpus sequentially and compare with the fresh-router references
+	for _, st := range corpus {
+		check("replan", st, seqP.plan(st), 0, -2)
+	}
+	invariant("after the final sequential re-plan")
 
 	n := 0
 	distinctPlans.Range(func(k, v interface{}) bool { n++; return true })
